@@ -392,6 +392,9 @@ func MetaDataKVHandler(resHolder *SearchResult, attrGetter AttributeGetter, addi
 					continue
 				}
 				mch, val := convertFilterValue(fs[i].SearchFilter)
+				if mch == object.MatchNotPresent { // here i > 0: the object does have the primary attribute
+					return true
+				}
 				var matches bool
 				if IsIntegerSearchOp(mch) {
 					matches = fs[i].AutoMatch || intBytesMatch(primDBVal, mch, fs[i].Raw)
